@@ -8,7 +8,9 @@ Local Open Scope Z_scope.
 
 Inductive fstep :=
 | FRecv (now : Z) (k : kind) (from : N) (c : cmd) (accepted : bool) (fwd : list N) (cache : list entry)
-| FCleanup (now : Z) (cache : option (list entry)).   (* None: cache not observed after this pass *)
+| FCleanup (now : Z) (cache : option (list entry))    (* None: cache not observed after this pass *)
+| FIssue (now : Z) (k : kind) (c : cmd) (sent : list N) (cache : list entry).
+    (* FloodSleepCommand / FloodWakeCommand called on the flooder: peers the frame went to, cache afterwards *)
 
 Record fcase := mkfcase { fc_steps : list fstep }.
 
@@ -39,6 +41,9 @@ Definition fstep_ok (ca : list entry) (s : fstep) : list entry * bool :=
   | FCleanup now cache =>
       let ca' := cleanup fcfg_default now [] ca in
       (ca', match cache with Some o => entries_eqb (sort_entries ca') o | None => true end)
+  | FIssue now k c sent cache =>
+      let ca' := fst (mark now (c_origin c) (c_id c) (f_local fcfg_default) ca) in
+      (ca', list_N_eqb (sort_N model_peers) sent && entries_eqb (sort_entries ca') cache)
   end.
 
 Fixpoint fsteps_ok (ca : list entry) (ss : list fstep) : bool :=
@@ -66,30 +71,47 @@ Definition fmismatches (cs : list fcase) : list N := fmismatches_from 0%N cs.
     (Go map iteration order) are an oracle carried by the cleanup step. *)
 Inductive fop :=
 | ORecv (from : N) (c : cmd) (d : Z)   (* marked at the step's instant, timestamp checked [d] earlier *)
-| OCleanup (victims : list nat).
+| OCleanup (victims : list nat)
+| OIssue (k : kind) (c : cmd) (first : bool).
+    (* the agent itself issues the command (Agent.TriggerSleep / TriggerWake ->
+       Flooder.FloodSleepCommand / FloodWakeCommand): it is marked as seen from the
+       local identity and broadcast; [first = false] for TriggerWake's repeated
+       floods of the command it issued before *)
 
 (** would the size-based eviction run at this cleanup pass? *)
 Definition overflows_with (expiry : fcfg -> Z) (cfg : fcfg) (now : Z) (ca : list entry) : bool :=
   f_max cfg <? Z.of_nat (length (expire now (expiry cfg) ca)).
 
+(** FloodSleepCommand / FloodWakeCommand on the cache: mark, result ignored *)
+Definition issue_mark (cfg : fcfg) (now : Z) (c : cmd) (ca : list entry) : list entry :=
+  fst (mark now (c_origin c) (c_id c) (f_local cfg) ca).
+
 Section Run.
   Variable hdl : fcfg -> Z -> Z -> list N -> N -> cmd -> list entry -> list entry * option (list N).
   Variable expiry : fcfg -> Z.
 
-  (** accepted deliveries (instant, command) in order, and whether the
-      size-based eviction ever ran *)
+  (** the commands the agent acted on, in order: accepted deliveries
+      (instant, command, false) and commands it issued itself (instant,
+      command, true); and whether the size-based eviction ever ran (or a
+      first issue found its key still cached) *)
   Fixpoint run_with (cfg : fcfg) (peers : list N) (ca : list entry) (h : list (Z * fop))
-    : list (Z * cmd) * bool :=
+    : list (Z * cmd * bool) * bool :=
     match h with
     | [] => ([], false)
     | (now, ORecv from c d) :: r =>
         let '(ca', res) := hdl cfg (now - d) now peers from c ca in
         let '(acc, ov) := run_with cfg peers ca' r in
-        (match res with Some _ => (now, c) :: acc | None => acc end, ov)
+        (match res with Some _ => (now, c, false) :: acc | None => acc end, ov)
     | (now, OCleanup v) :: r =>
         let ov0 := overflows_with expiry cfg now ca in
         let '(acc, ov) := run_with cfg peers (cleanup_with expiry cfg now v ca) r in
         (acc, ov0 || ov)
+    | (now, OIssue k c first) :: r =>
+        (* a command issued for the first time whose (origin, id) key is still in the
+           cache: excluded like an overflow (command ids are the nanosecond clock) *)
+        let clash := first && has_key (c_origin c) (c_id c) ca in
+        let '(acc, ov) := run_with cfg peers (issue_mark cfg now c ca) r in
+        (if first then (now, c, true) :: acc else acc, clash || ov)
     end.
 End Run.
 
@@ -98,3 +120,16 @@ Definition run_pre_fix := run_with (fun cfg _ now => handle_pre_fix cfg now) sle
 
 (** identity of a command: what is signed *)
 Definition cmd_id (c : cmd) : N * N * N := (c_origin c, c_id c, c_ts c).
+
+(** "at most once": an accepted delivery is never of a command the agent has
+    acted on before - neither accepted from a peer nor issued by itself
+    ([seen] = identities acted on so far). *)
+Fixpoint fresh_acc (seen : list (N * N * N)) (acc : list (Z * cmd * bool)) : Prop :=
+  match acc with
+  | [] => True
+  | (_, c, issued) :: r => (issued = false -> ~ In (cmd_id c) seen) /\ fresh_acc (cmd_id c :: seen) r
+  end.
+
+(** the accepted deliveries of a run *)
+Definition accepted (acc : list (Z * cmd * bool)) : list (Z * cmd) :=
+  map fst (filter (fun x => negb (snd x)) acc).
